@@ -517,16 +517,17 @@ fn tamper_hash(h: &[u8; 32], kind: &str, rng: &mut Rng) -> [u8; 32] {
     o
 }
 fn hooked<T: Send + 'static>(f: impl FnOnce() -> gm_sm2::error::Sm2Result<T> + Send + 'static, script: Vec<[u8; 32]>) -> (Outcome<T>, Vec<Vec<u8>>) {
+    // the accepted draws are reported whatever the outcome of the call (a step that fails after drawing its scalar is still judged from that scalar)
     let out = guard_timed(20, move || {
         verif::rng_script(script);
         let _ = verif::rng_take_log();
-        let r = f();
+        let r = crate::trace::guard(f);
         let log = verif::rng_take_log();
         verif::rng_script(vec![]);
-        r.map(|v| (v, log))
+        Ok::<_, String>((r, log))
     });
     match out {
-        Outcome::Ok((v, log)) => (Outcome::Ok(v), log.iter().filter(|e| e.accepted).map(|e| e.candidate.to_vec()).collect()),
+        Outcome::Ok((r, log)) => (r, log.iter().filter(|e| e.accepted).map(|e| e.candidate.to_vec()).collect()),
         Outcome::Err(e) => (Outcome::Err(e), vec![]), Outcome::Panic(e) => (Outcome::Panic(e), vec![]), Outcome::Timeout => (Outcome::Timeout, vec![]),
     }
 }
@@ -545,7 +546,7 @@ fn kx_run(t: &mut Tracer, sess: &str, run: &KxRun, rng: &mut Rng) {
     let (a, b) = match (mk(&ka, opt(ida_s, 0), &kb, opt(idb_s, 1)), mk(&kb, opt(idb_s, 2), &ka, opt(ida_s, 3))) { (Ok(a), Ok(b)) => (Arc::new(Mutex::new(a)), Arc::new(Mutex::new(b))), _ => return };
     let common = json!({"prop": "C15", "pkA": bytes(&ka.pk65), "pkB": bytes(&kb.pk65), "idA": bytes(run.ida.as_bytes()), "idB": bytes(run.idb.as_bytes()), "klen": run.klen});
     let with = |extra: Value| { let mut m = common.clone(); for (k, v) in extra.as_object().unwrap() { m[k] = v.clone(); } m };
-    let tam = |flag: bool| if flag { run.kind.clone() } else { "none".to_string() };
+    let tam = |flag: bool| if flag || run.none_mask & 16 != 0 { run.kind.clone() } else { "none".to_string() };
     // step 1
     let a1 = a.clone();
     let (o1, ks1) = hooked(move || a1.lock().unwrap().exchange_1(), run.ra_script.clone());
@@ -619,7 +620,13 @@ pub fn drive_kex(t: &mut Tracer, tier: &str, seed: u64, plan: Option<String>) {
             ra_script: vec![b32(&arr(&v["ra"]))], rb_script: vec![], da: arr(&v["da"]), db: arr(&v["db"]), forge: Some((arr(&v["rbx"]), arr(&v["rby"]), arr(&v["sb"]))), none_mask: 0 };
         kx_run(t, &sess(), &run, &mut rng);
     }
-    for (i, v) in read_plan(&plan).iter().filter(|v| v["kind"] != "forge").enumerate() {
+    // an unlucky honest initiator (key and ephemeral scalar crafted by the specification so that V is the point at infinity): B must fail
+    for v in read_plan(&plan).iter().filter(|v| v["kind"] == "vzero" && v["check"] == 1) {
+        let run = KxRun { t_ra: false, t_rb: false, t_sb: false, t_sa: false, kind: "vzero".into(), klen: 16, ida: "alice".into(), idb: "bob".into(),
+            ra_script: vec![b32(&arr(&v["ra"]))], rb_script: vec![], da: arr(&v["da"]), db: arr(&v["db"]), forge: None, none_mask: 16 };
+        kx_run(t, &sess(), &run, &mut rng);
+    }
+    for (i, v) in read_plan(&plan).iter().filter(|v| v["kind"] != "forge" && v["kind"] != "vzero").enumerate() {
         let reps = if thorough { 3 } else { 1 };
         for _ in 0..reps {
             let run = KxRun { t_ra: v["ra"] == 1, t_rb: v["rb"] == 1, t_sb: v["sb"] == 1, t_sa: v["sa"] == 1, kind: v["kind"].as_str().unwrap().into(), klen: 16 + (i % 40),
